@@ -55,8 +55,9 @@ type Outcome struct {
 	F string `json:"f,omitempty"` // fail: notincluded inmempool toobig err seq (only the backoff differs)
 }
 type Item struct {
-	T  string    `json:"t"`            // produce headers data restart
+	T  string    `json:"t"`            // produce produce_empty headers data restart
 	NE bool      `json:"ne,omitempty"` // produce: the sequencer hands out transactions
+	N  int       `json:"n,omitempty"`  // produce_empty: number of attempts in a row without transactions
 	SC []Outcome `json:"sc,omitempty"` // headers / data: DA answers, then cancellation
 }
 type Replay struct {
@@ -158,6 +159,59 @@ func genHistory(r *rand.Rand, maxLen int) (uint64, uint64, []Item) {
 	return init, limit, h
 }
 
+// size-boundary stream: limits around 256 and above, idle stretches of 255/256/257/600 empty blocks in a
+// row before / between blocks with transactions, DA layer healthy, rounds of both submission iterations.
+// A per-round cap on the pending range, a fixed-size buffer, an 8-bit counter … would show here and
+// nowhere in the short histories above.
+func genBoundary(r *rand.Rand, idx int) (uint64, uint64, []Item) {
+	if idx == 0 {
+		// always present: an idle stretch of 257 blocks below a limit of 300, then transactions, DA layer healthy:
+		// everything must reach the DA layer in one round of iterations and production must go on
+		h := []Item{{T: "produce_empty", N: 257}, {T: "produce", NE: true}, {T: "produce", NE: true}}
+		for j := 0; j < 4; j++ {
+			h = append(h, Item{T: "data", SC: acceptAll()}, Item{T: "headers", SC: acceptAll()}, Item{T: "produce", NE: j%2 == 0})
+		}
+		return 1, 300, h
+	}
+	init := []uint64{1, 1, 5}[r.Intn(3)]
+	limit := []uint64{255, 256, 257, 300, 1000}[r.Intn(5)]
+	runs := []int{255, 256, 257, 600}
+	var h []Item
+	pair := func() {
+		if r.Intn(2) == 0 {
+			h = append(h, Item{T: "headers", SC: acceptAll()}, Item{T: "data", SC: acceptAll()})
+		} else {
+			h = append(h, Item{T: "data", SC: acceptAll()}, Item{T: "headers", SC: acceptAll()})
+		}
+	}
+	if r.Intn(2) == 0 { // some blocks with transactions first, on the DA layer or not
+		h = append(h, Item{T: "produce"}, Item{T: "produce", NE: true})
+		if r.Intn(2) == 0 {
+			pair()
+		}
+	}
+	for seg, nseg := 0, 1+r.Intn(2); seg < nseg; seg++ {
+		h = append(h, Item{T: "produce_empty", N: runs[r.Intn(len(runs))]})
+		if r.Intn(3) == 0 { // only the headers of the idle stretch reach the DA layer before transactions arrive
+			h = append(h, Item{T: "headers", SC: acceptAll()})
+		}
+		for j, k := 0, 1+r.Intn(3); j < k; j++ {
+			h = append(h, Item{T: "produce", NE: true})
+		}
+		if r.Intn(4) == 0 {
+			h = append(h, Item{T: "restart"})
+		}
+		if r.Intn(2) == 0 {
+			pair()
+		}
+	}
+	for j, k := 0, 3+r.Intn(3); j < k; j++ {
+		pair()
+		h = append(h, Item{T: "produce", NE: r.Intn(2) == 0})
+	}
+	return init, limit, h
+}
+
 // ---- doubles -----------------------------------------------------------------------------------
 
 type seqDouble struct {
@@ -249,7 +303,7 @@ func (d *daDouble) SubmitWithOptions(ctx context.Context, blobs []coreda.Blob, g
 		return nil, fmt.Errorf("da double: %w", fErr(o.F))
 	}
 	take := len(blobs)
-	if o.K < uint64(take) {
+	if o.K < all && o.K < uint64(take) { // K >= all = every blob, however many
 		take = int(o.K)
 	}
 	c.accepted = take
@@ -478,6 +532,12 @@ func acceptsAll(it Item) bool {
 	return len(it.SC) >= 1 && it.SC[0].O == "accept" && it.SC[0].K >= all
 }
 
+// items j-1 and j are one header and one data iteration (either order), both against an accepting DA layer
+func acceptingPair(hist []Item, j int) bool {
+	return j >= 1 && j < len(hist) && acceptsAll(hist[j]) && acceptsAll(hist[j-1]) &&
+		((hist[j].T == "headers" && hist[j-1].T == "data") || (hist[j].T == "data" && hist[j-1].T == "headers"))
+}
+
 func runCase(seed int64, c int, init, limit uint64, hist []Item, rootDir string) (res *caseResult) {
 	res = &caseResult{}
 	defer func() {
@@ -511,79 +571,103 @@ func runCase(seed int64, c int, init, limit uint64, hist []Item, rootDir string)
 			res.fail("limit-not-enforced", fmt.Sprintf("limit %d: %d committed blocks have no header on the DA layer (height %d)", limit, n, w.height()))
 		}
 	}
+	// one production attempt; returns whether it was refused.  The oracle's facts are read from the store
+	// and the DA double lazily (only on a refusal: a refused attempt changes nothing they depend on).
+	attempt := func(i int, wantNE bool) bool {
+		before := w.height()
+		if wantNE {
+			n := 1 + r.Intn(3)
+			var txs [][]byte
+			for j := 0; j < n; j++ {
+				tx := make([]byte, 1+r.Intn(24))
+				r.Read(tx)
+				txs = append(txs, tx)
+			}
+			w.seq.next = txs
+		} else {
+			w.seq.next = nil
+		}
+		wdBefore := w.m.VerifLastSubmittedDataHeight()
+		whBefore := w.m.VerifLastSubmittedHeaderHeight()
+		if err := w.m.VerifPublishBlock(w.ctx); err != nil {
+			res.err = fmt.Errorf("publish failed: %w", err)
+			return false
+		}
+		switch w.height() {
+		case before + 1:
+			res.nProduced++
+			res.chain = append(res.chain, w.nonEmpty(before+1))
+			return false
+		case before:
+		default:
+			res.err = fmt.Errorf("publish moved the height %d -> %d", before, w.height())
+			return false
+		}
+		res.nRefused++
+		// ---- oracle: a refusal is justified only by L committed blocks still waiting for the DA layer
+		if nwait, first := w.waiting(); nwait < limit {
+			allEmpty, anyNE := true, false
+			for h := wdBefore + 1; h <= before; h++ {
+				if w.nonEmpty(h) {
+					allEmpty = false
+					anyNE = true
+				}
+			}
+			sig := "refused-with-fewer-than-limit-blocks-waiting"
+			switch {
+			case before < w.gen.InitialHeight:
+				sig = "first-block-refused-initial-height-above-limit"
+			case before-whBefore < limit && allEmpty:
+				sig = "refused-on-empty-pending-data"
+			case before-whBefore < limit && anyNE:
+				sig = "refused-counting-empty-blocks-behind-unaccepted-data"
+			}
+			res.fail(sig, fmt.Sprintf("limit %d, initial height %d, height %d: production refused while only %d committed block(s) wait for the DA layer (first waiting: %d; header watermark %d, data watermark %d)", limit, init, before, nwait, first, whBefore, wdBefore))
+		}
+		// ---- oracle: resumption / no deadlock: right after a header and a data iteration against an accepting DA layer
+		if acceptingPair(hist, i-1) {
+			sig := "production-stopped-although-da-accepts"
+			allEmpty := true
+			for h := w.gen.InitialHeight; h <= before; h++ {
+				if w.nonEmpty(h) {
+					allEmpty = false
+				}
+			}
+			if allEmpty && before >= w.gen.InitialHeight {
+				sig = "production-stopped-although-da-accepts:all-empty-chain"
+			}
+			res.fail(sig, fmt.Sprintf("limit %d, initial height %d: block %d refused right after a header and a data submission iteration that the DA layer accepted", limit, init, before+1))
+		}
+		return true
+	}
 	for i, it := range hist {
 		switch it.T {
 		case "produce":
-			before := w.height()
-			if it.NE {
-				n := 1 + r.Intn(3)
-				var txs [][]byte
-				for j := 0; j < n; j++ {
-					tx := make([]byte, 1+r.Intn(24))
-					r.Read(tx)
-					txs = append(txs, tx)
-				}
-				w.seq.next = txs
-			} else {
-				w.seq.next = nil
-			}
-			// what waits for the DA layer right now (before the attempt)
-			nwait, first := w.waiting()
-			wdBefore := w.m.VerifLastSubmittedDataHeight()
-			whBefore := w.m.VerifLastSubmittedHeaderHeight()
-			if err := w.m.VerifPublishBlock(w.ctx); err != nil {
-				res.err = fmt.Errorf("publish failed: %w", err)
-				return
-			}
 			io := itemOut{coqItem: "IProduce " + vgen.Bool(it.NE)}
-			switch w.height() {
-			case before + 1:
-				res.nProduced++
-				res.chain = append(res.chain, w.nonEmpty(before+1))
-			case before:
+			if attempt(i, it.NE) {
 				io.res = 1
-				res.nRefused++
-				// ---- oracle: a refusal is justified only by L committed blocks still waiting for the DA layer
-				if nwait < limit {
-					allEmpty, anyNE := true, false
-					for h := wdBefore + 1; h <= before; h++ {
-						if w.nonEmpty(h) {
-							allEmpty = false
-							anyNE = true
-						}
-					}
-					sig := "refused-with-fewer-than-limit-blocks-waiting"
-					switch {
-					case before < w.gen.InitialHeight:
-						sig = "first-block-refused-initial-height-above-limit"
-					case before-whBefore < limit && allEmpty:
-						sig = "refused-on-empty-pending-data"
-					case before-whBefore < limit && anyNE:
-						sig = "refused-counting-empty-blocks-behind-unaccepted-data"
-					}
-					res.fail(sig, fmt.Sprintf("limit %d, initial height %d, height %d: production refused while only %d committed block(s) wait for the DA layer (first waiting: %d; header watermark %d, data watermark %d)", limit, init, before, nwait, first, whBefore, wdBefore))
-				}
-				// ---- oracle: resumption / no deadlock: right after a header and a data iteration against an accepting DA layer
-				if i >= 2 && acceptsAll(hist[i-1]) && acceptsAll(hist[i-2]) &&
-					((hist[i-1].T == "headers" && hist[i-2].T == "data") || (hist[i-1].T == "data" && hist[i-2].T == "headers")) {
-					sig := "production-stopped-although-da-accepts"
-					allEmpty := true
-					for h := w.gen.InitialHeight; h <= before; h++ {
-						if w.nonEmpty(h) {
-							allEmpty = false
-						}
-					}
-					if allEmpty && before >= w.gen.InitialHeight {
-						sig = "production-stopped-although-da-accepts:all-empty-chain"
-					}
-					res.fail(sig, fmt.Sprintf("limit %d, initial height %d: block %d refused right after a header and a data submission iteration that the DA layer accepted", limit, init, before+1))
-				}
-			default:
-				res.err = fmt.Errorf("publish moved the height %d -> %d", before, w.height())
+			}
+			if res.err != nil {
 				return
 			}
 			obs(&io)
 			enforced()
+		case "produce_empty":
+			io := itemOut{coqItem: "IProduceEmptyN " + vgen.N(uint64(it.N))}
+			for j := 0; j < it.N; j++ {
+				k := i
+				if j > 0 {
+					k = -1 // only the first attempt of the stretch comes right after the preceding iterations
+				}
+				if attempt(k, false) {
+					io.res++
+				}
+				if res.err != nil {
+					return
+				}
+			}
+			obs(&io)
+			enforced() // blocks without header on the DA layer only accumulate during the stretch
 		case "restart":
 			if err := w.start(); err != nil {
 				res.err = fmt.Errorf("restart failed: %w", err)
@@ -632,6 +716,13 @@ func runCase(seed int64, c int, init, limit uint64, hist []Item, rootDir string)
 			}
 			if io.res == 4 {
 				res.nExhausted++
+			}
+			// ---- oracle: a DA layer that accepts gets everything accepted: after one header and one data
+			// iteration nothing committed is left waiting
+			if acceptingPair(hist, i) {
+				if nwait, first := w.waiting(); nwait > 0 {
+					res.fail("blocks-left-waiting-after-accepting-iterations", fmt.Sprintf("limit %d, initial height %d, height %d: after a header and a data submission iteration that the DA layer accepted, %d committed block(s) still wait (first: %d, non-empty: %v; header watermark %d, data watermark %d)", limit, init, w.height(), nwait, first, w.nonEmpty(first), w.m.VerifLastSubmittedHeaderHeight(), w.m.VerifLastSubmittedDataHeight()))
+				}
 			}
 			if io.res == 2 {
 				res.fail("pending-range-unreadable", fmt.Sprintf("%s iteration: reading the pending range failed (watermarks %d/%d, height %d)", it.T, w.m.VerifLastSubmittedHeaderHeight(), w.m.VerifLastSubmittedDataHeight(), w.height()))
@@ -703,6 +794,7 @@ func TestVerif(t *testing.T) {
 		c           int
 		init, limit uint64
 		hist        []Item
+		boundary    bool
 	}
 	var jobs []job
 	if e.Replay != "" {
@@ -710,7 +802,7 @@ func TestVerif(t *testing.T) {
 		if err := vgen.LoadReplay(e.Replay, &rp); err != nil {
 			t.Fatal(err)
 		}
-		jobs = append(jobs, job{rp.Seed, rp.Case, rp.Init, rp.Limit, rp.History})
+		jobs = append(jobs, job{seed: rp.Seed, c: rp.Case, init: rp.Init, limit: rp.Limit, hist: rp.History})
 	} else {
 		files, _ := filepath.Glob("../corpus/C08/*.json")
 		if os.Getenv("VERIF_NO_CORPUS") != "" {
@@ -719,8 +811,16 @@ func TestVerif(t *testing.T) {
 		for _, f := range files {
 			var rp Replay
 			if vgen.LoadReplay(f, &rp) == nil && rp.History != nil {
-				jobs = append(jobs, job{rp.Seed, rp.Case, rp.Init, rp.Limit, rp.History})
+				jobs = append(jobs, job{seed: rp.Seed, c: rp.Case, init: rp.Init, limit: rp.Limit, hist: rp.History})
 			}
+		}
+		// the size-boundary stream: 2 cases per run (quick), 3 per shard (thorough)
+		nb := 2
+		if e.Tier == "thorough" {
+			nb = 3
+		}
+		for c := 0; c < nb && e.N > 0; c++ {
+			jobs = append(jobs, job{seed: e.Seed, c: 1000000 + c, boundary: true})
 		}
 		for c := 0; c < e.N; c++ {
 			jobs = append(jobs, job{seed: e.Seed, c: c})
@@ -734,7 +834,10 @@ func TestVerif(t *testing.T) {
 	distinct := map[string]bool{}
 	for ji, j := range jobs {
 		init, limit, hist := j.init, j.limit, j.hist
-		if hist == nil {
+		if hist == nil && j.boundary {
+			init, limit, hist = genBoundary(caseRng(j.seed, j.c), j.c-1000000)
+			res.Count("stream:size-boundary")
+		} else if hist == nil {
 			init, limit, hist = genHistory(caseRng(j.seed, j.c), maxLen)
 		}
 		cr := runBubble(t, j.seed, j.c, init, limit, hist, rootDir)
@@ -746,6 +849,9 @@ func TestVerif(t *testing.T) {
 		res.Count(fmt.Sprintf("limit:%d", limit))
 		for _, it := range hist {
 			res.Count("item:" + it.T)
+			if it.T == "produce_empty" {
+				res.Count(fmt.Sprintf("idle-stretch:%d", it.N))
+			}
 			nf := 0
 			for _, o := range it.SC {
 				if o.O == "fail" {
@@ -821,7 +927,7 @@ func TestVerif(t *testing.T) {
 		}
 	}
 	res.Distinct = len(distinct)
-	res.Rule = "real aggregator Manager (NewManager, real store/signer/publishBlockInternal) with MaxPendingHeadersAndData L in {1,2,3,10} and initial height in {1 (3/7), 2, 5, 12, 1000}; block mix per case: all-empty, all non-empty, 50% or 25% non-empty (the block at the initial height is always the stored genesis block, empty); histories of 4..maxLen items: bursts of 1..L+1 production attempts, single header / data submission iterations through the hooks (body of HeaderSubmissionLoop / DataSubmissionLoop), restarts (NewManager on the same datastore); every DA call answered truthfully from a script: accept all (40%), outage of 1..5 answers then acceptance, outage of 30..65 answers (> maxSubmitAttempts), outage until the context ends, acceptance of 1..3 blobs at a time, context cancelled at once; 80% of histories end with 2..2L+3 rounds of (header iteration, data iteration in either order against an accepting DA layer, then one production attempt) on which resumption / no-deadlock is judged; refusal-justified and limit-enforced are judged at every production attempt; all in synctest bubbles (virtual time); non-trivial = at least one block produced, one refusal and one DA call; distinct = distinct (initial height, limit, model history) terms"
+	res.Rule = "real aggregator Manager (NewManager, real store/signer/publishBlockInternal) with MaxPendingHeadersAndData L in {1,2,3,10} and initial height in {1 (3/7), 2, 5, 12, 1000}; block mix per case: all-empty, all non-empty, 50% or 25% non-empty (the block at the initial height is always the stored genesis block, empty); histories of 4..maxLen items: bursts of 1..L+1 production attempts, single header / data submission iterations through the hooks (body of HeaderSubmissionLoop / DataSubmissionLoop), restarts (NewManager on the same datastore); every DA call answered truthfully from a script: accept all (40%), outage of 1..5 answers then acceptance, outage of 30..65 answers (> maxSubmitAttempts), outage until the context ends, acceptance of 1..3 blobs at a time, context cancelled at once; 80% of histories end with 2..2L+3 rounds of (header iteration, data iteration in either order against an accepting DA layer, then one production attempt) on which resumption / no-deadlock is judged; after every such pair of iterations no committed block may be left waiting; refusal-justified and limit-enforced are judged at every production attempt; plus a size-boundary stream (2 cases per run, 3 per thorough shard): limit in {255,256,257,300,1000}, idle stretches of 255/256/257/600 attempts without transactions in a row (run-length item IProduceEmptyN, expanded inside Coq) before / between blocks with transactions, DA layer healthy, 3..5 closing rounds, same oracles; all in synctest bubbles (virtual time); non-trivial = at least one block produced, one refusal and one DA call; distinct = distinct (initial height, limit, model history) terms"
 	res.Cases = len(cases)
 	header := "From Coq Require Import NArith List Bool.\nFrom Verif Require Import Model.Throttle Check.ThrottleCheck."
 	path := filepath.Join(e.Out, "cases_C08.v")
